@@ -17,8 +17,15 @@ node (JSON lists, first element = kind):
   ["overlay", top, bottom, align, width, valign, height, min_width|None, min_height|None, left, right, top, bottom]
   ["linebox", node, tline(0/1), bline(0/1)]
  oracle-only leaves / containers (no model, encode() returns None):
-  ["edit", id, caption, text, pos, multiline]  ["icon", id, text, cursor_pos]  ["button", id, label]  ["checkbox", id, label]
+  ["edit", id, nchars, edit_pos]  ["icon", id, nchars, cursor_pos]  ["button", id, nchars]  ["checkbox", id, nchars]
+                                                   real urwid leaves whose text / label is their marker repeated nchars times
   ["gridflow", cell_width, hsep, vsep, align, focus, [node, ...]]   ["listbox", focus, [node, ...]]
+
+run_impl observes, on a freshly built tree: the rectangle of every spy leaf (read from the canvas text), the
+cursor of render(size, True), get_cursor_coords(size) (before and after the first rendering), the leaf
+reached by a button-1 press on EVERY cell of the rendered area, and for each requested cell the outcome of
+move_cursor_to_coords (return value, the leaf that was asked and with which cell, the cursor afterwards).
+The oracle (judge) is written from the property text and never looks at the model.
 """
 import itertools
 import re
@@ -373,7 +380,7 @@ def fits_w(w, size, atomic=()):
         n = len(w.contents)
         if n == 0 or len(widths) != n or any(x < 1 for x in widths) or sum(widths) + w.dividechars * (n - 1) > maxcol:
             return False
-        if any(h < 1 for h in heights):
+        if any(h < 1 for h in heights) or (len(size) == 2 and any(h > size[1] for h in heights)):
             return False
         return all(fits_w(c, a, atomic) for (c, _), a in zip(w.contents, args))
     if isinstance(w, urwid.Padding):
